@@ -102,11 +102,18 @@ def form_agree(ctx, modules=None):
                 try:
                     res[stacked] = _flat(ev.call_function(f, args))
                 except Unsupported as e:
+                    if str(e).startswith('shape mismatch'):
+                        res[stacked] = 'raises: %s' % e
+                        continue
                     raise AnalysisError('%s not analysable in %s form: %s'
                                         % (fq, 'stacked' if stacked else 'scalar', e))
             a, b = res[False], res[True]
             diff = []
-            if set(a) != set(b):
+            if isinstance(a, str) or isinstance(b, str):
+                diff = ['the %s form %s' % ('scalar' if isinstance(a, str) else 'stacked',
+                                            a if isinstance(a, str) else b)]
+                a = a if not isinstance(a, str) else {}
+            elif set(a) != set(b):
                 diff = ['result shapes differ: %d vs %d entries' % (len(a), len(b))]
             else:
                 for k in sorted(a):
